@@ -27,6 +27,10 @@ class Args:
             v = self.__dict__["_sv"][k]
         except KeyError:
             raise AttributeError(k) from None
+        if v.tag == "str":
+            from .exprs import str_const
+
+            return str_const(v.z)
         return v.z
 
     def sv(self, k) -> SV:
@@ -117,6 +121,9 @@ class CallMixin:
             return self.construct(f.z, args, kwargs, p, R, node)
         if f.tag == "clsof":
             return self.construct_dynamic(f, args, kwargs, p, R, node)
+        if f.tag == "val" and f.extra and f.extra.get("factory"):
+            # tree._node_factory: ASSUMED to be the default factory of the tree class (DESIGN §3.4)
+            return self.construct_node({"plain": "Node", "typed": "TypedNode"}[self.family], args, kwargs, p, R, node)
         if f.tag == "val":  # opaque callable value (user callback held in a field/param)
             outs = []
             if f.extra and f.extra.get("maybe_exc"):
@@ -338,6 +345,12 @@ class CallMixin:
             return [(p, SV("method", (o, attr)))]
         defcls, fd = self.src.class_member(cls, attr)
         if fd is None:
+            const = self.src.class_const(cls, attr)
+            if const is not None:
+                kind, val = const
+                if kind == "str":
+                    return [(p, SV("str", val))]
+                return [(p, SV("val", z3.Const(f"clsattr!{val}", L.Val)))]
             if cls in ("Node", "TypedNode") and attr not in ("kind",):
                 # Node.__getattr__ forwarding; never triggered for the slotted names (assumed)
                 raise Unsupported(f"attribute {attr} resolves to Node.__getattr__ (line {node.lineno})")
